@@ -484,22 +484,47 @@ def r8(F, R):
     from . import c15
     co = c15.filter_run_co(F)
     run = [(s_, t) for s_, t in co.calls(lambda t: (op_fn(t["func"]) or {}).get("trait") == "runner::Runner")]
-    nxt = [(s_, t) for s_, t in co.calls(lambda t: callee_is(t, r"StreamExt::next$"))]
-    he = [(s_, t) for s_, t in co.calls(lambda t: (op_fn(t["func"]) or {}).get("trait") == "writer::Writer" and callee_is(t, r"::handle_event$"))]
-    if len(run) != 1 or len(he) != 1:
-        raise Unverifiable(f"filter_run: Runner::run x{len(run)}, Writer::handle_event x{len(he)}")
+    is_he = lambda t: (op_fn(t["func"]) or {}).get("trait") == "writer::Writer" and callee_is(t, r"::handle_event$")
+    is_adaptor = lambda ct: (op_fn(ct["func"]) or {}).get("trait", "").endswith(("StreamExt", "Stream", "TryStreamExt")) and not callee_is(ct, r"StreamExt::next$")
+    # the pump: the coroutine of `cucumber::` that polls a stream in a loop and hands items to Writer::handle_event — filter_run's own
+    # body, or a private async helper it passes the runner's stream to
+    pcs = [b_ for b_ in F.crate_bodies() if b_.is_coroutine and b_.name.startswith("cucumber::") and any(True for _ in b_.calls(is_he))
+           and any(True for _ in b_.calls(lambda t: callee_is(t, r"StreamExt::next$")))]
+    if len(run) != 1 or len(pcs) != 1:
+        raise Unverifiable(f"filter_run: Runner::run x{len(run)}, event pumps x{len(pcs)}")
+    pc = pcs[0]
+    he = list(pc.calls(is_he))
+    if len(he) != 1:
+        raise Unverifiable(f"event pump: Writer::handle_event x{len(he)}")
     s_run, t_run = run[0]
     s_he, t_he = he[0]
-    # the stream polled by the loop is the runner's
+    nxt = [(s_, t) for s_, t in pc.calls(lambda t: callee_is(t, r"StreamExt::next$"))]
+    STOP = [r"Future::poll$", r"runner::Runner(<.*>)?>?::run$", r"Runner::run$"]
     pump = []
-    for s_, t in nxt:
-        sl = A.slice_back(co, [t["args"][0]], stop_calls=[r"Future::poll$", r"runner::Runner(<.*>)?>?::run$", r"Runner::run$"])
-        if s_run in sl.sites:
-            adaptors = sorted({callee_path(ct).rsplit("::", 1)[-1] for _, ct in sl.calls if (op_fn(ct["func"]) or {}).get("trait", "").endswith(("StreamExt", "Stream", "TryStreamExt"))
-                               and not callee_is(ct, r"StreamExt::next$")})
-            pump.append((s_, t, adaptors))
+    if pc is co:
+        # the stream polled by the loop is the runner's
+        for s_, t in nxt:
+            sl = A.slice_back(co, [t["args"][0]], stop_calls=STOP)
+            if s_run in sl.sites:
+                pump.append((s_, t, sorted({callee_path(ct).rsplit("::", 1)[-1] for _, ct in sl.calls if is_adaptor(ct)})))
+    else:
+        hf = F.root_fn(pc)
+        hcalls = [(s_, t) for s_, t in co.calls(lambda t: F.callee_body(t, co.crate) is hf)]
+        if len(hcalls) != 1:
+            raise Unverifiable(f"event pump helper `{hf.short}` is called {len(hcalls)} times from filter_run")
+        s_h, t_h = hcalls[0]
+        sl = A.slice_back(co, list(t_h["args"]), stop_calls=STOP)
+        outer = sorted({callee_path(ct).rsplit("::", 1)[-1] for _, ct in sl.calls if is_adaptor(ct)})
+        awaited = any(a.src_op is not None and s_h in A.slice_back(co, [a.src_op]).sites for a in A.awaits(co))
+        R.check(s_run in sl.sites and awaited, "pump/helper-gets-runner-stream", s_h, f"`{hf.short.rsplit('::', 1)[-1]}(runner.run(..), ..)` is awaited",
+                "the event-pump helper is not given the runner's stream, or its future is not awaited")
+        for s_, t in nxt:
+            sl2 = A.slice_back(pc, [t["args"][0]], stop_calls=STOP)
+            inner = sorted({callee_path(ct).rsplit("::", 1)[-1] for _, ct in sl2.calls if is_adaptor(ct)})
+            pump.append((s_, t, outer + inner))
     ok = len(pump) == 1 and not pump[0][2]
-    R.check(ok, "pump/runner-stream-unadapted", s_run, "the loop polls runner.run(..) itself", f"the event loop of filter_run does not poll the runner's stream as it is (adaptors: {[p[2] for p in pump]})")
+    R.check(ok, "pump/runner-stream-unadapted", s_run, "the loop polls runner.run(..) itself", f"the event loop of filter_run does not poll the runner's stream as it is (adaptors: {[p_[2] for p_ in pump]})")
+    co = pc
     if len(pump) == 1:
         s_n, t_n, _ = pump[0]
         aw = [a for a in A.awaits(co) if a.src_op is not None and s_n in A.slice_back(co, [a.src_op]).sites]
